@@ -1,5 +1,5 @@
 """Which bundles / engines decide which property (the fixed properties are in /verif/properties.jsonl)."""
-from . import attack, hashl, evaluation, draw
+from . import attack, hashl, evaluation, draw, rules, targets, succ
 
 WL_ATTACK = ['external_body:axiom_i8_add_assign_ref', 'assume_specification:i8::abs']
 TB_COMMON = [
@@ -29,15 +29,30 @@ def b_draw(g):
     attack.build(g); draw.build(g)
 
 
+def b_targets(g):
+    attack.build(g); hashl.build(g); rules.build(g); targets.build(g); succ.build(g)
+
+
+WL_MOVEGEN = WL_ATTACK + ['external_body:axiom_boardstate_clone']
+MOVEGEN = {'name': 'movegen', 'build': b_targets, 'rlimit': 60,
+           'rlimits': {'generate_moves_for_piece': 400, 'generate_castling_moves': 300},
+           'canary_quick': ['is_check', 'is_check_cords', 'get_moves', 'promote_pawn', 'pawn_moves_en_passant', 'knight_moves', 'generate_moves']}
+
 PROPS = {
-    'C10': {
-        'verus': [{'name': 'draw', 'build': b_draw, 'rlimit': 30}],
-        'whitelist': WL_ATTACK,
-        'trusted_base': TB_COMMON + ["vstd's model of std::collections::HashMap (u64 keys obey the key model)"],
-        'dropped': DROPPED_COMMON + ['DrawTable::remove_board_from_draw_table (Some(&val) pattern unsupported by Verus)'],
-        'explanation': 'exact per-operation counts of the repetition table with frame; seen >= 2 <=> draw',
-        'assumptions': [],
-        'not_decided': [],
+    'C01': {
+        'verus': [MOVEGEN],
+        'whitelist': WL_MOVEGEN, 'trusted_base': TB_COMMON, 'dropped': DROPPED_COMMON,
+        'explanation': 'wip', 'assumptions': [], 'not_decided': [],
+    },
+    'C02': {
+        'verus': [MOVEGEN],
+        'whitelist': WL_MOVEGEN, 'trusted_base': TB_COMMON, 'dropped': DROPPED_COMMON,
+        'explanation': 'wip', 'assumptions': [], 'not_decided': [],
+    },
+    'C13': {
+        'verus': [MOVEGEN],
+        'whitelist': WL_MOVEGEN, 'trusted_base': TB_COMMON, 'dropped': DROPPED_COMMON,
+        'explanation': 'wip', 'assumptions': [], 'not_decided': [],
     },
     'C14': {
         'verus': [{'name': 'eval', 'build': b_eval, 'rlimit': 60}],
@@ -49,8 +64,8 @@ PROPS = {
         'not_decided': [],
     },
     'C05': {
-        'verus': [{'name': 'hash', 'build': b_hash, 'rlimit': 30}],
-        'whitelist': WL_ATTACK,
+        'verus': [{'name': 'hash', 'build': b_hash, 'rlimit': 30}, MOVEGEN],
+        'whitelist': WL_MOVEGEN,
         'trusted_base': TB_COMMON,
         'dropped': DROPPED_COMMON,
         'explanation': 'key_ok as representation invariant',
